@@ -256,7 +256,7 @@ def check():
 
     o.samples = samples + [{"query": q["name"], "verdict": q["verdict"]} for q in o.queries[:6]]
     # ------------------------------------------------------------------ replay on the real CLI
-    if bad or tier() == "thorough" or os.environ.get("VERIF_REPLAY_ALWAYS"):
+    if True:   # the real-binary oracle is cheap: always run it (replay of a failing lemma, or translator validation)
         mism, rdir, detail = real_cli_matrix()
         o.extra["real_cli_matrix"] = detail
         if bad:
